@@ -151,6 +151,10 @@ func (m *machine) reset() {
 	m.tc = map[string]*caching.TargetResultCache{"l": caching.NewTargetResultCache(m.fs), "w": caching.NewTargetResultCache(m.wrapper)}
 }
 
+// streamOf hides bytes.Reader's WriterTo so that io.Copy moves the content in 32 KiB chunks, as it does for the files
+// grog streams into the cache (a tee'd Set then sees several writes, and a fault can hit between two of them)
+func streamOf(data []byte) io.Reader { return struct{ io.Reader }{bytes.NewReader(data)} }
+
 func newWorld(faults []string) (*world, error) {
 	caseNo++
 	wd := &world{base: filepath.Join(baseDir, fmt.Sprintf("c%d", caseNo)), fake: &fakeS3{objects: map[string][]byte{}, faults: faults}, m: map[string]*machine{}}
@@ -300,7 +304,7 @@ func (wd *world) doOp(op string) string {
 			}
 			return "ok=" + showVal(path, data)
 		case "set":
-			return errClass(be.Set(ctx, path, key, bytes.NewReader([]byte(w.Unhex(f[6])))))
+			return errClass(be.Set(ctx, path, key, streamOf([]byte(w.Unhex(f[6])))))
 		case "ex":
 			return boolClass(be.Exists(ctx, path, key))
 		case "del":
@@ -310,7 +314,7 @@ func (wd *world) doOp(op string) string {
 		cas := m.cas[mode]
 		switch verb {
 		case "write":
-			return errClass(cas.Write(ctx, f[4], bytes.NewReader([]byte(w.Unhex(f[5])))))
+			return errClass(cas.Write(ctx, f[4], streamOf([]byte(w.Unhex(f[5])))))
 		case "load":
 			data, err := cas.LoadBytes(ctx, f[4])
 			if err != nil {
